@@ -133,5 +133,37 @@ void h_aux(void)
 		n2 = derTUINTEnc(D2, 0x02, v0, 10);
 		V_ASSERT(n1 == n2 && n1 <= 13 && o_eq(D1, D2, n1), "derTUINTEnc with val inside der == disjoint-buffer result");
 	}
+	/* beltKeyExpand: key anywhere around key_ (documented: key and key_ may overlap), lengths 16 and 24 */
+	{
+		V_IN_ARR(octet, kk, 32); V_IN(unsigned char, ko);
+		octet W[32 + 64], EK[32];
+		unsigned kl;
+		V_TWEAK(ko, ko %= 65);
+		V_ASSUME(ko <= 64);
+		for (kl = 16; kl <= 24; kl += 8)
+			if ((size_t)ko + kl <= sizeof(W))
+			{
+				o_copy(W, ar0, sizeof(W)); o_copy(W + ko, kk, kl);
+				beltKeyExpand(EK, kk, kl);
+				beltKeyExpand(W + 32, W + ko, kl);          /* key_ = W + 32, key = W + ko: every relative placement */
+				V_ASSERT(o_eq(W + 32, EK, 32), "beltKeyExpand with key overlapping key_ == disjoint-buffer result");
+			}
+	}
+	/* beltDWPWrap / beltCHEWrap: the open data src2 inside dest (only dest and mac must not intersect) */
+	{
+		V_IN_ARR(octet, iv, 16); V_IN(unsigned char, so);
+		octet D1[64], D2[64], M1[8], M2[8], X[40], I2[24];
+		V_TWEAK(so, so %= 17);
+		V_ASSUME(so <= 16);
+		o_copy(X, ar0, 40); o_copy(I2, ar0 + 40, 24);
+		o_copy(D1, ar0, 64); o_copy(D1 + so, I2, 24);
+		e1 = beltDWPWrap(D1, M1, X, 40, D1 + so, 24, key, 32, iv);
+		e2 = beltDWPWrap(D2, M2, X, 40, I2, 24, key, 32, iv);
+		V_ASSERT(e1 == e2 && o_eq(D1, D2, 40) && o_eq(M1, M2, 8), "beltDWPWrap with the open data inside dest == disjoint-buffer result");
+		o_copy(D1, ar0, 64); o_copy(D1 + so, I2, 24);
+		e1 = beltCHEWrap(D1, M1, X, 40, D1 + so, 24, key, 32, iv);
+		e2 = beltCHEWrap(D2, M2, X, 40, I2, 24, key, 32, iv);
+		V_ASSERT(e1 == e2 && o_eq(D1, D2, 40) && o_eq(M1, M2, 8), "beltCHEWrap with the open data inside dest == disjoint-buffer result");
+	}
 	V_CANARY("aux");
 }
